@@ -7,7 +7,7 @@ set -u
 name=$1; d=/verif/seeded/$name; id=${name%%-*}; sub=${name##*-}
 export GOFLAGS=-mod=mod GOPROXY=off
 # disk guard: builds against scratch worktrees fill the go build cache (one set of objects per path)
-if [ "$(df --output=avail -BG / | tail -1 | tr -dc 0-9)" -lt 40 ]; then go clean -cache >/dev/null 2>&1; fi
+if [ "$(df --output=avail -BG / | tail -1 | tr -dc 0-9)" -lt 25 ]; then go clean -cache >/dev/null 2>&1; fi
 wt=$(mktemp -d /tmp/cfwt.XXXXXX); rmdir $wt
 git -C /repo worktree add --detach -q $wt HEAD || exit 2
 trap 'git -C /repo worktree remove --force $wt' EXIT
